@@ -163,6 +163,8 @@ class Builtins:
         if modname == "math":
             if attr == "e":
                 return SNum(sym.E, False)
+            if attr == "isclose":
+                return Builtin("math.isclose", self.m_isclose)
             fns = {"sqrt": self.m_sqrt, "cbrt": self.m_cbrt, "log": self.m_log, "cos": self.m_cos,
                    "sin": self.m_sin, "gcd": self.m_gcd}
             if attr in fns:
@@ -210,6 +212,17 @@ class Builtins:
             if attr == "keys":
                 return Builtin("dict.keys", lambda a, k: DictView(o, "keys"))
         if isinstance(o, SSet):
+            if attr in ("issubset", "issuperset", "isdisjoint"):
+                def rel(a, k):
+                    b = a[0]
+                    if not isinstance(b, SSet):
+                        raise Unsupported(f"{attr} with {b!r}")
+                    if attr == "issubset":
+                        return sym.subset(o.term, b.term)
+                    if attr == "issuperset":
+                        return sym.subset(b.term, o.term)
+                    return z3.SetIntersect(o.term, b.term) == sym.empty_set()
+                return Builtin("set." + attr, rel)
             if attr == "union":
                 def un(a, k):
                     t = o.term
@@ -257,6 +270,10 @@ class Builtins:
         if o is None:
             raise Raise(self.make_exc("AttributeError", f"None has no attribute {attr}"), self.I.where())
         if isinstance(o, (SNum, int, float, str, SName, SStr, list, tuple, SDict, SSet)):
+            pytypes = {SNum: (int, float), int: (int,), float: (float,), str: (str,), SName: (str,), SStr: (str,), list: (list,),
+                       GeneratorList: (list,), tuple: (tuple,), SDict: (dict,), SSet: (set,), bool: (bool,)}[type(o)]
+            if any(hasattr(t, attr) for t in pytypes):
+                raise Unsupported(f"attribute {attr} of a {pytypes[0].__name__} is not modelled")
             raise Raise(self.make_exc("AttributeError", f"{type(o).__name__} has no attribute {attr}"), self.I.where())
         raise Unsupported(f"attribute {attr} of {o!r}")
 
@@ -854,6 +871,17 @@ class Builtins:
             self.path.require(b != 1, "builtin:math.log-base-not-one(ZeroDivisionError)")
             return mk_num(sym.ln(x) / sym.ln(b), False)
         return mk_num(sym.ln(x), False)
+
+    def m_isclose(self, a, k):
+        x, y = self._real(a[0], "math.isclose"), self._real(a[1], "math.isclose")
+        rel = real_term(k.get("rel_tol", 1e-09))
+        ab = real_term(k.get("abs_tol", 0.0))
+        absx = z3.If(x >= 0, x, -x)
+        absy = z3.If(y >= 0, y, -y)
+        d = z3.If(x - y >= 0, x - y, y - x)
+        big = z3.If(absx >= absy, absx, absy)
+        tol = z3.If(rel * big >= ab, rel * big, ab)
+        return d <= tol
 
     def m_cos(self, a, k):
         return mk_num(sym.cos(self._real(a[0], "math.cos")), False)
